@@ -131,6 +131,21 @@ def all_units(hits, lengths):
     return units
 
 
+def shrunk_units(hits):
+    """ what HMMResult.merge makes of a same-profile pair whose later fragment ends inside the earlier one
+        (known finding 'merge shrinks'): [a.s, b.e) with b.e < a.e. Not a permissible merge; used only to
+        describe the structure of a violating case. """
+    units = []
+    for a in hits:
+        for b in hits:
+            if a == b or a.p != b.p or not (a.s <= b.s < a.e and a.s < b.e < a.e):
+                continue
+            inside = [m.sc for m in hits if m.p == a.p and a.s <= m.s < b.e]
+            for score in {max(a.sc, b.sc), max(inside)}:
+                units.append(Hit(a.p, a.s, b.e, score, min(a.ev, b.ev)))
+    return units
+
+
 def represented(h, out) -> bool:
     if h in out:
         return True
@@ -203,6 +218,9 @@ def check_refined(hits, out, lengths, neighbour_mode, count=None):
             complete=proportion(h, lengths) > THRESHOLD,
             # structural facts used by the known-finding classifiers
             lost_to_absent_rival=absent_rival,
+            lost_to_shrunk_merge=(not neighbour_mode) and any(
+                x.p != me.p and better(x, me) and conflict(x, me, lengths)
+                for me in [h] + _merge_units(h, hits, lengths) for x in shrunk_units(hits)),
             tail_cut_by_same_profile_fragment=any(h.s <= x.s < h.e and x.e < h.e for x in same),
             better_conflicting_input=bool(better_conflicting),
             same_profile_restart=any(a.s <= h.s and g.s >= h.s and g != h and g.e - a.s >= limit
